@@ -57,13 +57,16 @@ void vf_case(vf::Ctx& c) {
         vf::Buf ws(est);   // exactly the estimate, exact-size heap block (nothing outside may be touched)
         ZSTD_CCtx* cc = stream ? ZSTD_initStaticCStream(ws.p, est) : ZSTD_initStaticCCtx(ws.p, est);
         VF_CHECK(c, cc != nullptr, "%s(workspace of exactly estimate(%d)=%zu) returned NULL", stream ? "initStaticCStream" : "initStaticCCtx", L, est);
-        unsigned nops = (unsigned)t.range(1, 4);
+        // mostly a few operations; sometimes a long life of small operations on the one static context (a budget must not wear out)
+        bool longlife = t.chance(12);
+        unsigned nops = longlife ? (unsigned)t.range(130, 400) : (unsigned)t.range(1, 4);
+        if (longlife) c.label("static_context_long_life");
         for (unsigned i = 0; i < nops; i++) {
             int l = (int)t.irange(-7 < L ? -7 : L, L);
             if (l > L) l = L;
             if (l == 0) l = (L >= 1) ? 1 : L;
             gen::ContentInfo ci;
-            std::vector<uint8_t> x = gen::gen_content(t, (l >= 16) ? (128u << 10) : (600u << 10), &ci);
+            std::vector<uint8_t> x = longlife ? gen::gen_content_sized(t, (size_t)t.range(0, 3000), &ci) : gen::gen_content(t, (l >= 16) ? (128u << 10) : (600u << 10), &ci);
             std::vector<uint8_t> out(ZSTD_compressBound(x.size()) + 64);
             size_t n;
             if (!stream) n = ZSTD_compressCCtx(cc, out.data(), out.size(), x.data(), x.size(), l);
@@ -74,7 +77,7 @@ void vf_case(vf::Ctx& c) {
             }
             VF_CHECK(c, !ZSTD_isError(n), "static %s sized by estimate(level %d)=%zu failed at level %d on %zu bytes (operation %u): %s", stream ? "CStream" : "CCtx", L, est, l, x.size(), i, ZSTD_getErrorName(n));
             roundtrip(c, out.data(), n, x, nullptr, "estimate(level)");
-            c.note("%s L=%d l=%d n=%zu; ", stream ? "CStream" : "CCtx", L, l, x.size());
+            if (i < 4) c.note("%s L=%d l=%d n=%zu; ", stream ? "CStream" : "CCtx", L, l, x.size());
         }
         c.label(stream ? "part:estimateCStreamSize(level)" : "part:estimateCCtxSize(level)");
         c.nontrivial = true;
